@@ -3,13 +3,13 @@
    at statement level, exactly the backing arrays that existed when they started.  Which of those
    cells does a goroutine WRITE, and which can another one READ?
    Definitions only.  Theorems (C07_WritesProofs.v), to be imported by Props_C07:
-     c07_disjoint_writes            quiet parent: no goroutine writes a cell another can read or write
-     c07_no_shared_writes           quiet parent: the shared write set of every program is empty
-     c07_shared_writes_classified   any parent: a shared write is a Where.Build swap cell of the
-                                    parent's WHERE/HAVING array or a spare cell of its FROM joins array
+     c07_disjoint_writes            parent with fromj_full: no goroutine writes a cell another can read or write
+     c07_no_shared_writes           parent with fromj_full: the shared write set of every program is empty
+     c07_shared_writes_classified   any parent: a shared write is a spare cell of its FROM-joins array
      c07_chain_methods_write_private  chain methods never write a shared cell
-     c07_swap_refuted, c07_fromjoins_refuted   witnesses (reachable states) of the two shared writes
-     c07_reachable_parent_wf        the hypotheses hold for every handle of every history *)
+     c07_fromjoins_refuted          witness (reachable state) of the remaining shared write
+     c07_swap_private_now           the former Where.Build witness has no shared write since 12bf8b8
+     c07_reachable_parent_wf        the well-formedness hypothesis holds for every handle of every history *)
 From Verif Require Export Base C06_Model.
 Open Scope nat_scope.
 
@@ -45,18 +45,12 @@ End Run.
 Definition reads (par : mstmt) (l i : nat) : Prop :=
   exists f n c, sl par f = SArr l n c /\ i < n.
 
-(* a parent on which SQL generation has nothing to rewrite and nothing to append in place: its
-   WHERE / HAVING lists are in Where.Build's normal form, its FROM joins (a caller's
-   clause.From{Joins}) have no spare capacity *)
-Definition swap_quiet (h : heap) (x : slice) : Prop := wnorm (rd h x) = rd h x.
-Definition parent_quiet (h : heap) (par : mstmt) : Prop :=
-  swap_quiet h (sl par FWhere) /\ swap_quiet h (sl par FHaving)
-  /\ slen (sl par FFromj) = scap (sl par FFromj).
+(* a parent whose FROM joins (a caller's clause.From{Joins}) have no spare capacity: BuildQuerySQL's
+   fromClause.Joins = append(fromClause.Joins, ...) then always reallocates.  (Since /repo 12bf8b8
+   Where.Build swaps on a private copy, so nothing is required of WHERE / HAVING any more.) *)
+Definition fromj_full (par : mstmt) : Prop := slen (sl par FFromj) = scap (sl par FFromj).
 
-(* the two kinds of shared write *)
-Definition swap_cell (h : heap) (par : mstmt) (l i : nat) : Prop :=
-  exists f n c, (f = FWhere \/ f = FHaving) /\ sl par f = SArr l n c /\ i < n
-                /\ ~ swap_quiet h (SArr l n c).
+(* the one remaining kind of shared write: a spare cell of the parent's FROM-joins array *)
 Definition fromj_spare_cell (par : mstmt) (l i : nat) : Prop :=
   exists n c, sl par FFromj = SArr l n c /\ n <= i /\ n < c.
 
